@@ -4,21 +4,143 @@
 package main
 
 import (
+	"strings"
 	"bufio"
 	"encoding/hex"
 	"encoding/json"
 	"fmt"
 	"os"
 
+	"math/big"
+
 	"github.com/ethereum/go-ethereum/common"
+	"github.com/ethereum/go-ethereum/core/state"
+	"github.com/ethereum/go-ethereum/core/vm"
+	"github.com/ethereum/go-ethereum/crypto"
 	"github.com/ethereum/go-ethereum/ethdb"
+	"github.com/ethereum/go-ethereum/params"
+	"github.com/ethereum/go-ethereum/rlp"
 	"github.com/ethereum/go-ethereum/trie"
 )
 
+// EvmAccount and EvmReq describe one execution for both implementations.
+type EvmAccount struct {
+	Addr    string      `json:"addr"`
+	Code    string      `json:"code"`
+	Balance string      `json:"balance"` // decimal
+	Nonce   uint64      `json:"nonce"`
+	Storage [][2]string `json:"storage"`
+}
+type EvmReq struct {
+	Accounts []EvmAccount `json:"accounts"`
+	Callee   string       `json:"callee"`
+	Input    string       `json:"input"`
+	Value    string       `json:"value"`
+	Origin   string       `json:"origin"`
+	Number   uint64       `json:"number"`
+	Time     uint64       `json:"time"`
+	Gas      uint64       `json:"gas"`
+}
+type EvmRes struct {
+	Err  string `json:"err"`
+	Ret  string `json:"ret"`
+	Root string `json:"root"`
+	Logs string `json:"logs"`
+	Dump string `json:"dump,omitempty"`
+}
+
+func allForks() *params.ChainConfig {
+	z := new(big.Int)
+	return &params.ChainConfig{ChainID: big.NewInt(1), HomesteadBlock: z, DAOForkBlock: nil, EIP150Block: z, EIP155Block: z, EIP158Block: z,
+		ByzantiumBlock: z, ConstantinopleBlock: z}
+}
+
+func runEvm(q *EvmReq) (r EvmRes) {
+	defer func() {
+		if p := recover(); p != nil {
+			r.Err = fmt.Sprint("panic: ", p)
+		}
+	}()
+	st, _ := state.New(common.Hash{}, state.NewDatabase(ethdb.NewMemDatabase()))
+	for _, a := range q.Accounts {
+		addr := common.HexToAddress(a.Addr)
+		st.CreateAccount(addr)
+		st.SetCode(addr, unhex(a.Code))
+		b, _ := new(big.Int).SetString(a.Balance, 10)
+		st.SetBalance(addr, b)
+		st.SetNonce(addr, a.Nonce)
+		for _, kv := range a.Storage {
+			st.SetState(addr, common.HexToHash(kv[0]), common.HexToHash(kv[1]))
+		}
+	}
+	st.Commit(false)
+	val, _ := new(big.Int).SetString(q.Value, 10)
+	origin := common.HexToAddress(q.Origin)
+	ctx := vm.Context{
+		CanTransfer: func(db vm.StateDB, addr common.Address, amount *big.Int) bool { return db.GetBalance(addr).Cmp(amount) >= 0 },
+		Transfer: func(db vm.StateDB, sender, recipient common.Address, amount *big.Int) {
+			db.SubBalance(sender, amount)
+			db.AddBalance(recipient, amount)
+		},
+		GetHash: func(n uint64) common.Hash {
+			return common.BytesToHash(crypto.Keccak256([]byte(new(big.Int).SetUint64(n).String())))
+		},
+		Origin: origin, Coinbase: common.HexToAddress("0xc0ffee"), BlockNumber: new(big.Int).SetUint64(q.Number),
+		Time: new(big.Int).SetUint64(q.Time), Difficulty: big.NewInt(7), GasLimit: q.Gas, GasPrice: new(big.Int),
+	}
+	var tracer *vm.StructLogger
+	vcfg := vm.Config{}
+	if os.Getenv("VERIF_EVM_TRACE") != "" {
+		tracer = vm.NewStructLogger(&vm.LogConfig{DisableMemory: true, DisableStack: false, DisableStorage: true})
+		vcfg.Debug, vcfg.Tracer = true, tracer
+	}
+	env := vm.NewEVM(ctx, st, allForks(), vcfg)
+	sender := st.GetOrNewStateObject(origin)
+	ret, _, err := env.Call(sender, common.HexToAddress(q.Callee), unhex(q.Input), q.Gas, val)
+	if err != nil {
+		switch err {
+		case vm.ErrOutOfGas, vm.ErrCodeStoreOutOfGas:
+			r.Err = "oog"
+		default:
+			if err.Error() == "evm: execution reverted" {
+				r.Err = "revert"
+			} else {
+				r.Err = "fail"
+			}
+		}
+	}
+	r.Ret = hex.EncodeToString(ret)
+	root, _ := st.Commit(true)
+	r.Root = hex.EncodeToString(root[:])
+	lb, _ := rlp.EncodeToBytes(st.Logs())
+	r.Logs = hex.EncodeToString(crypto.Keccak256(lb))
+	if tracer != nil {
+		var sb strings.Builder
+		for _, l := range tracer.StructLogs() {
+			top := ""
+			if n := len(l.Stack); n > 0 {
+				top = l.Stack[n-1].Text(16)
+			}
+			if os.Getenv("VERIF_EVM_TRACE") == "2" {
+				fmt.Fprintf(&sb, "%d %d %s %s %v gas=%d cost=%d\n", l.Depth, l.Pc, l.Op, top, l.Err, l.Gas, l.GasCost)
+			} else {
+				fmt.Fprintf(&sb, "%d %d %s %s %v\n", l.Depth, l.Pc, l.Op, top, l.Err)
+			}
+		}
+		r.Dump = sb.String()
+		return r
+	}
+	if os.Getenv("VERIF_EVM_DUMP") != "" {
+		r.Dump = string(st.Dump()) + fmt.Sprintf(" logs=%x", lb)
+	}
+	return r
+}
+
 type req struct {
-	Cmd   string `json:"cmd"` // trie-new trie-put trie-del trie-get trie-root trie-reopen
-	Key   string `json:"key,omitempty"`
-	Value string `json:"value,omitempty"`
+	Cmd   string  `json:"cmd"` // trie-new trie-put trie-del trie-get trie-root trie-reopen evm-run
+	Key   string  `json:"key,omitempty"`
+	Value string  `json:"value,omitempty"`
+	Evm   *EvmReq `json:"evm,omitempty"`
 }
 type resp struct {
 	Value string `json:"value,omitempty"`
@@ -77,6 +199,10 @@ func main() {
 						t = nt
 					}
 					r.Value = hex.EncodeToString(root[:])
+				case "evm-run":
+					res := runEvm(q.Evm)
+					b, _ := json.Marshal(res)
+					r.Value = string(b)
 				default:
 					r.Err = "unknown command"
 				}
